@@ -1,60 +1,84 @@
 #!/usr/bin/env python3
-"""Translate time_evolution_for_term and time_evolution (evolution.py) to Gallina, statement by statement
-(fail-closed: anything outside the grammar below is rejected with exit code 3).
+"""Translate time_evolution_for_term, time_evolution, _generate_circuit_sequence and time_evolution_derivatives
+(evolution.py) to Gallina, statement by statement (fail-closed: anything outside the grammar below is rejected with
+exit code 3).
 
-  evolution.py : time_evolution_for_term, time_evolution   -> Gen/EvolutionGen.v
+  evolution.py : the four functions   -> Gen/EvolutionGen.v
 
 The generated definitions are built from the hand-written reading of the Python constructs in
-coq/Pauli/EvolutionTrSupport.v; coq/Pauli/EvolutionGenProofs.v proves, on every run, that the generated
-definitions agree with the model of Pauli/Evolution.v that the C16 theorems are about.
+coq/Pauli/EvolutionTrSupport.v; coq/Pauli/EvolutionGenProofs.v and coq/Pauli/EvolutionDerivGenProofs.v prove, on every
+run, that the generated definitions agree with the models of Pauli/Evolution.v / Pauli/EvolutionCode.v that the C16
+theorems are about.
 
 Accepted grammar
-  module      `import numpy as np`; H, RX, RZ, CNOT, Circuit bound exactly once, by `from .circuits import ...`;
-              the two functions defined exactly once, undecorated; sorted/enumerate/len/abs/range/ValueError
-              not rebound at module level.
+  module      `import numpy as np`, `import warnings`, `from itertools import chain`; H, RX, RZ, CNOT, Circuit bound
+              exactly once, by `from .circuits import ...`; the functions defined exactly once, undecorated;
+              sorted/enumerate/len/abs/range/zip/list/ValueError not rebound at module level.
   parameters  plain positional, annotated PauliTerm | PauliRepresentation | Union[float, sympy.Expr] | float |
-              str | int (defaults must be constants; the generated function takes every parameter explicitly).
+              str | int | Circuit (defaults must be constants; the generated function takes every parameter
+              explicitly; a call may pass keywords, an omitted parameter takes its constant default).
   types       circ (Circuit), gateop (GateOperation), num (float / sympy number), int, qubit, qlist (list of
-              qubits), qset (set of qubits), itemset, term, termlist, ham, str, bool.
-  expressions names; int / float / str literals;
+              qubits), qset (set of qubits), itemset, term, termlist, ham, str, bool, numlist, circlist (local lists
+              built by [] / [..] and .append), oplist / oplists (Circuit.operations and lists of them), complex
+              (term.coefficient, only compared with a number).
+  expressions names; int / float / str literals (a minus sign in front of a numeric literal is part of the literal);
               term.qubits, term.operations, term.is_constant, term.coefficient.real, term.coefficient.imag,
               ham.terms; Circuit(); sorted(qset|qlist); len(qlist|qset|itemset|termlist); abs(num);
               H(q), CNOT(q, q), RX(<closed expression over np.pi, int literals, unary -, /, *>)(q), RZ(num)(q);
-              circ.inverse(); term[qubit]; qlist[int]; int + int, int - int; num * num (an int operand is
-              coerced), num / num (idem; ZeroDivisionError when the divisor is zero); circ + circ, circ + gateop;
-              int ==/!= int, str ==/!= str, qubit ==/!= qubit, num > num, num < num;
-              a call of the other translated function with positional arguments.
-  statements  at function level: `x = e`, `x += e`, `if c: return e`, `if c: raise ValueError(...)`,
-              `for` loops, and a final `return e` (e a circuit);
-              in a loop body: `x = e`, `x += e`, `if/elif/else` of such statements, nested `for` loops.
-  loops       `for a in qlist|termlist`, `for a in range(int)`, `for a, b in enumerate(qlist|termlist)`.
-              Iteration over a set, a term or a sum is rejected (the order is not modelled).  A loop becomes
-              `py_for <iterable> <initial state> <body>` where the state record has one field per local assigned in
-              the body (type `option T`, initially None, when the local is not bound before the loop: reading it
-              goes through `py_local`, i.e. UnboundLocalError).  Loop targets are not visible after the loop.
-Evaluation order is Python's: sub-expressions that can raise (py_local, py_index, py_truediv, calls) are bound
-left to right before the pure remainder of the statement.
+              circ.inverse(); term[qubit]; qlist[int]; int + int, int - int; num + num, num * num (an int operand is
+              coerced), num / num (idem; ZeroDivisionError when the divisor is zero); np.pi as a number (the function
+              is then generated over a number structure with pi, `pynum_pi`); circ + circ, circ + gateop;
+              int ==/!=/</<=/>/>= int, str ==/!= str, qubit ==/!= qubit, num > num, num < num, num ==/!= term.coefficient;
+              `a if c else b` (only the chosen branch is evaluated); [] and [num, ...];
+              circ.operations, [e for x in range(int)] (e pure), chain.from_iterable(oplists), list(..), Circuit(oplist);
+              a call of another translated function.
+  statements  at function level: `x = e`, `x += e`, `if c: return e`, `if c: raise ValueError(...)`, `for` loops,
+              and a final `return e` (a circuit or a pair of lists) or a final `if c: <block> else: <block>` whose
+              blocks end the same way;
+              in a loop body: `x = e`, `x += e`, `xs.append(e)`, `if/elif/else` of such statements, nested `for` loops,
+              `warnings.warn(<str> | <str>.format(names))` (no effect in the model).
+  loops       `for a in qlist|termlist|numlist|circlist`, `for a in range(int)`, `for a, b in enumerate(list)`,
+              `for a, b in zip(list, list)`.  Iteration over a set, a term or a sum is rejected (the order is not
+              modelled).  A loop becomes `py_for <iterable> <initial state> <body>` where the state record has one field
+              per local assigned (or appended to) in the body (type `option T`, initially None, when the local is not
+              bound before the loop: reading it goes through `py_local`, i.e. UnboundLocalError).  Loop targets are not
+              visible after the loop.  Lists are values here: a list local may not be copied to another name
+              (`y = xs`), and a list that an enclosing loop iterates over may not be appended to.
+Evaluation order is Python's: sub-expressions that can raise (py_local, py_index, py_truediv, calls, conditional
+expressions with such parts) are bound left to right before the pure remainder of the statement.
 """
 OUTPUTS = ['EvolutionGen.v']      # generated files (the driver uses this to decide which properties depend on this translator)
 import ast, os, re
 from fractions import Fraction
 from trlib import *
 
-FUNCS = ["time_evolution_for_term", "time_evolution"]        # in dependency order
+FUNCS = ["time_evolution_for_term", "time_evolution", "_generate_circuit_sequence", "time_evolution_derivatives"]   # dependency order
 GATE_NAMES = ["H", "RX", "RZ", "CNOT", "Circuit"]
-BUILTINS = ["sorted", "enumerate", "len", "abs", "range", "ValueError"]
+BUILTINS = ["sorted", "enumerate", "len", "abs", "range", "zip", "list", "ValueError"]
 FORBIDDEN_TEXT = re.compile(r"Admitted|admit|Axiom|Parameter|Conjecture|bypass_check|Unset|\(\*|\*\)|type-in-type|impredicative")
 
 COQTY = {"circ": "circ (num N)", "gateop": "pyop (num N)", "num": "num N", "int": "Z", "qubit": "nat",
          "qlist": "list nat", "qset": "list nat", "itemset": "list (nat * letter)", "term": "pterm (num N)",
-         "termlist": "list (pterm (num N))", "ham": "list (pterm (num N))", "str": "string", "bool": "bool"}
+         "termlist": "list (pterm (num N))", "ham": "list (pterm (num N))", "str": "string", "bool": "bool",
+         "numlist": "list (num N)", "circlist": "list (circ (num N))", "oplist": "list (pyop (num N))",
+         "oplists": "list (list (pyop (num N)))"}
 ANNOT = {"PauliTerm": "term", "PauliRepresentation": "ham", "Union[float, sympy.Expr]": "num", "float": "num",
-         "str": "str", "int": "int"}
-ELEM = {"qlist": "qubit", "termlist": "term"}
+         "str": "str", "int": "int", "Circuit": "circ"}
+RANNOT = {"Circuit": "circ", "Tuple[List[Circuit], List[float]]": ("pair", "circlist", "numlist")}
+ELEM = {"qlist": "qubit", "termlist": "term", "numlist": "num", "circlist": "circ"}
+LISTOF = {"num": "numlist", "circ": "circlist", "oplist": "oplists"}
+MUTABLE = ("numlist", "circlist", "list?")          # "list?": a list whose element type is not known yet
+
+def name_of(f):
+    return f.lstrip("_")
 
 def coqty(t):
+    if isinstance(t, tuple) and t[0] == "pair":
+        return f"({COQTY[t[1]]} * {COQTY[t[2]]})"
     if isinstance(t, tuple):
         return f"option ({COQTY[t[1]]})"
+    if t == "list?":
+        reject(None, "a list local whose element type is never determined")
     return COQTY[t]
 
 def src(node):
@@ -101,6 +125,13 @@ def check_module(tree):
     bs = binders("np")
     if len(bs) != 1 or not (isinstance(bs[0], ast.Import) and any(a.name == "numpy" and a.asname == "np" for a in bs[0].names)):
         reject(bs[0] if bs else tree, "np must be bound exactly once, by `import numpy as np`")
+    bs = binders("warnings")
+    if len(bs) != 1 or not (isinstance(bs[0], ast.Import) and any(a.name == "warnings" and a.asname is None for a in bs[0].names)):
+        reject(bs[0] if bs else tree, "warnings must be bound exactly once, by `import warnings`")
+    bs = binders("chain")
+    if len(bs) != 1 or not (isinstance(bs[0], ast.ImportFrom) and bs[0].module == "itertools" and bs[0].level == 0
+                            and any(a.name == "chain" and a.asname is None for a in bs[0].names)):
+        reject(bs[0] if bs else tree, "chain must be bound exactly once, by `from itertools import chain`")
     for f in FUNCS:
         bs = binders(f)
         if len(bs) != 1 or not isinstance(bs[0], ast.FunctionDef):
@@ -114,6 +145,9 @@ class Fn:
         self.fresh = 0
         self.nloops = 0
         self.defs = []           # text of records / loop bodies, in dependency order
+        self.rtype = None        # type of the returned value (all returns agree)
+        self.uses_pi = False     # np.pi used as a number: generated over pynum_pi
+        self.listtypes = {}      # list locals created by []: name -> list type once an append determines it
 
     def tmp(self):
         self.fresh += 1
@@ -148,6 +182,8 @@ class Scope:
             self.note_used(x)
         else:
             reject(node, "unknown name")
+        if ty == "list?" or ty == ("opt", "list?"):
+            reject(node, "list local read before an append determines its element type")
         if isinstance(ty, tuple):           # maybe unbound
             t = self.fn.tmp()
             binds.append((t, f"py_local {text}"))
@@ -186,8 +222,10 @@ def plain_call(e, nargs=None):
 
 def expr(e, sc, binds):
     """returns (coq text, type); effectful sub-evaluations are appended to binds in evaluation order"""
-    if isinstance(e, ast.Constant):
-        v = e.value
+    if isinstance(e, ast.Constant) or (isinstance(e, ast.UnaryOp) and isinstance(e.op, ast.USub)
+                                       and isinstance(e.operand, ast.Constant)
+                                       and isinstance(e.operand.value, (int, float)) and not isinstance(e.operand.value, bool)):
+        v = e.value if isinstance(e, ast.Constant) else -e.operand.value     # -1.0 is a literal
         if isinstance(v, bool) or v is None:
             reject(e, "literal not accepted")
         if isinstance(v, int):
@@ -211,7 +249,15 @@ def expr(e, sc, binds):
             if ty != "term":
                 reject(e, ".coefficient of a non-term")
             return f"({'t_re' if e.attr == 'real' else 't_im'} {t})", "num"
+        if isinstance(e.value, ast.Name) and e.value.id == "np" and e.attr == "pi":
+            shadowed(e.value, sc)
+            sc.fn.uses_pi = True
+            return "(n_pi N)", "num"
         t, ty = expr(e.value, sc, binds)
+        if ty == "term" and e.attr == "coefficient":
+            return t, "complex"                   # only comparable with a number
+        if ty == "circ" and e.attr == "operations":
+            return f"(circ_operations {t})", "oplist"
         table = {("term", "qubits"): ("term_qubits", "qset"), ("term", "operations"): ("term_operations", "itemset"),
                  ("term", "is_constant"): ("term_is_constant", "bool"), ("ham", "terms"): ("ham_terms", "termlist")}
         if (ty, e.attr) not in table:
@@ -238,10 +284,12 @@ def expr(e, sc, binds):
             return f"(circ_add {a} {b})", "circ"
         if op is ast.Add and ta == "circ" and tb == "gateop":
             return f"(circ_add_op {a} {b})", "circ"
-        if op in (ast.Mult, ast.Div) and {ta, tb} <= {"num", "int"} and "num" in (ta, tb):
+        if op in (ast.Mult, ast.Div, ast.Add) and {ta, tb} <= {"num", "int"} and "num" in (ta, tb):
             a, b = as_num(a, ta, e.left), as_num(b, tb, e.right)
             if op is ast.Mult:
                 return f"(n_mul N {a} {b})", "num"
+            if op is ast.Add:
+                return f"(n_add N {a} {b})", "num"
             x = sc.fn.tmp()
             binds.append((x, f"py_truediv N {a} {b}"))
             return x, "num"
@@ -258,10 +306,24 @@ def expr(e, sc, binds):
             return (t if op is ast.Eq else f"(negb {t})"), "bool"
         if op in (ast.Gt, ast.Lt) and ta == "num" and tb == "num":
             return (f"(n_gtb N {a} {b})" if op is ast.Gt else f"(n_gtb N {b} {a})"), "bool"
+        zcmp = {ast.Lt: "(Z.ltb {a} {b})", ast.LtE: "(Z.leb {a} {b})", ast.Gt: "(Z.ltb {b} {a})", ast.GtE: "(Z.leb {b} {a})"}
+        if op in zcmp and ta == "int" and tb == "int":
+            return zcmp[op].format(a=a, b=b), "bool"
+        if op in (ast.Eq, ast.NotEq) and {ta, tb} == {"num", "complex"}:
+            x, t = (a, b) if ta == "num" else (b, a)        # number == complex coefficient of the term t
+            r = f"(py_num_eq_complex N {x} {t})"
+            return (r if op is ast.Eq else f"(negb {r})"), "bool"
         reject(e, f"comparison {op.__name__} on {ta}, {tb} not accepted")
     if isinstance(e, ast.Call):
         f = e.func
         # method call: circ.inverse()
+        if isinstance(f, ast.Attribute) and f.attr == "from_iterable" and isinstance(f.value, ast.Name) and f.value.id == "chain":
+            shadowed(f.value, sc)
+            plain_call(e, 1)
+            t, ty = expr(e.args[0], sc, binds)
+            if ty != "oplists":
+                reject(e, f"chain.from_iterable of {ty} not accepted")
+            return f"(py_chain {t})", "opiter"
         if isinstance(f, ast.Attribute):
             if f.attr != "inverse":
                 reject(e, "method call not accepted")
@@ -287,9 +349,21 @@ def expr(e, sc, binds):
         if not isinstance(f, ast.Name):
             reject(e, "call not accepted")
         shadowed(f, sc)
+        if f.id == "Circuit" and len(e.args) == 1:
+            plain_call(e, 1)
+            t, ty = expr(e.args[0], sc, binds)
+            if ty != "oplist":
+                reject(e, f"Circuit() of {ty} not accepted")
+            return f"(circ_of_operations {t})", "circ"
         if f.id == "Circuit":
             plain_call(e, 0)
             return "circ_empty", "circ"
+        if f.id == "list":
+            plain_call(e, 1)
+            t, ty = expr(e.args[0], sc, binds)
+            if ty != "opiter":
+                reject(e, f"list() of {ty} not accepted")
+            return f"(py_list {t})", "oplist"
         if f.id in ("H", "CNOT"):
             plain_call(e, 1 if f.id == "H" else 2)
             qs = []
@@ -318,20 +392,92 @@ def expr(e, sc, binds):
                 reject(e, f"abs() of {ty} not accepted")
             return f"(n_abs N {t})", "num"
         if f.id in sc.fn.sigs:
-            ptys = sc.fn.sigs[f.id]
-            plain_call(e, len(ptys))
-            args = []
-            for a, pt in zip(e.args, ptys):
+            sig = sc.fn.sigs[f.id]
+            if any(isinstance(a, ast.Starred) for a in e.args) or any(k.arg is None for k in e.keywords):
+                reject(e, "starred arguments not accepted")
+            if len(e.args) > len(sig["params"]):
+                reject(e, "too many arguments")
+            given = {}                                  # parameter -> argument node, evaluated in source order
+            for (pn, _), a in zip(sig["params"], e.args):
+                given[pn] = a
+            for k in e.keywords:
+                if k.arg in given or k.arg not in dict(sig["params"]):
+                    reject(e, f"keyword {k.arg} not accepted")
+                given[k.arg] = k.value
+            vals = {}
+            for pn, a in given.items():                 # dict order = evaluation order (positional, then keywords)
                 t, ty = expr(a, sc, binds)
+                pt = dict(sig["params"])[pn]
                 if pt == "num":
                     t = as_num(t, ty, a)
                 elif ty != pt:
                     reject(a, f"argument of type {ty} where {pt} is expected")
-                args.append(t)
+                vals[pn] = t
+            for pn, pt in sig["params"]:
+                if pn not in vals:
+                    if pn not in sig["defaults"]:
+                        reject(e, f"argument {pn} missing")
+                    t, ty = expr(sig["defaults"][pn], sc, [])
+                    if ty != pt:
+                        reject(e, f"default of {pn} has type {ty}, {pt} expected")
+                    vals[pn] = t
+            if sig["uses_pi"]:
+                sc.fn.uses_pi = True
             x = sc.fn.tmp()
-            binds.append((x, f"{f.id}_gen N {' '.join(args)}"))
-            return x, "circ"
+            binds.append((x, " ".join([f"{name_of(f.id)}_gen N"] + [vals[pn] for pn, _ in sig["params"]])))
+            return x, sig["rtype"]
         reject(e, "call not accepted")
+    if isinstance(e, ast.IfExp):
+        c = cond(e.test, sc, binds)                     # the test first, then only the chosen branch
+        ba, bb = [], []
+        a, ta = expr(e.body, sc, ba)
+        b, tb = expr(e.orelse, sc, bb)
+        if ta != tb:
+            reject(e, f"branches of different types ({ta}, {tb})")
+        if not ba and not bb:
+            return f"(if {c} then {a} else {b})", ta
+        x = sc.fn.tmp()
+        binds.append((x, f"if {c} then ({with_binds(ba, 'Ok ' + a)}) else ({with_binds(bb, 'Ok ' + b)})"))
+        return x, ta
+    if isinstance(e, ast.List):
+        if not isinstance(e.ctx, ast.Load):
+            reject(e, "list in non-load context")
+        if not e.elts:
+            return "[]", "list?"
+        items = []
+        for x in e.elts:
+            t, ty = expr(x, sc, binds)
+            if ty != "num":
+                reject(e, "only lists of numbers can be written as literals")
+            items.append(t)
+        return "[" + "; ".join(items) + "]", "numlist"
+    if isinstance(e, ast.ListComp):
+        if len(e.generators) != 1:
+            reject(e, "only one generator accepted")
+        g = e.generators[0]
+        if g.ifs or g.is_async or not isinstance(g.target, ast.Name):
+            reject(e, "comprehension form not accepted")
+        it = g.iter
+        if not (isinstance(it, ast.Call) and isinstance(it.func, ast.Name) and it.func.id == "range"):
+            reject(e, "comprehension must range over range(int)")
+        shadowed(it.func, sc)
+        plain_call(it, 1)
+        t, ty = expr(it.args[0], sc, binds)
+        if ty != "int":
+            reject(it, f"range() of {ty} not accepted")
+        x = g.target.id
+        if x in sc.plain or (sc.loop is not None and x in sc.loop["carried"]):
+            reject(e, f"comprehension variable {x} rebinds an existing local")
+        inner = Scope(sc.fn, dict(sc.plain, **{x: "int"}), sc.loop, own=sc.own + [x])
+        eb = []
+        el, tel = expr(e.elt, inner, eb)
+        for u in inner.used:
+            sc.note_used(u)
+        if eb:
+            reject(e, "comprehension element that can raise is not accepted")
+        if tel not in LISTOF:
+            reject(e, f"list of {tel} not accepted")
+        return f"(map (fun v_{x} => {el}) (py_range {t}))", LISTOF[tel]
     reject(e, "expression not accepted")
 
 def shadowed(name_node, sc):
@@ -352,6 +498,17 @@ def cond(test, sc, binds):
     return t
 
 # ----------------------------------------------------------------------------- loops
+def append_target(s):
+    """xs.append(e) as a statement: the name xs"""
+    if isinstance(s, ast.Expr) and isinstance(s.value, ast.Call) and isinstance(s.value.func, ast.Attribute) \
+            and s.value.func.attr == "append" and isinstance(s.value.func.value, ast.Name):
+        return s.value.func.value.id
+    return None
+
+def is_warn(s):
+    return isinstance(s, ast.Expr) and isinstance(s.value, ast.Call) and isinstance(s.value.func, ast.Attribute) \
+        and s.value.func.attr == "warn" and isinstance(s.value.func.value, ast.Name) and s.value.func.value.id == "warnings"
+
 def assigned(stmts):
     """names assigned in the statements (nested blocks included), in source order"""
     out = []
@@ -360,6 +517,9 @@ def assigned(stmts):
             for t in (s.targets if isinstance(s, ast.Assign) else [s.target]):
                 if isinstance(t, ast.Name) and t.id not in out:
                     out.append(t.id)
+        x = append_target(s)
+        if x is not None and x not in out:
+            out.append(x)
         for f in ("body", "orelse"):
             for c in getattr(s, f, []) or []:
                 visit(c)
@@ -367,11 +527,13 @@ def assigned(stmts):
         visit(s)
     return out
 
-def loop_header(st, sc, binds):
+def loop_header(st, sc, binds, iterated=None):
     """returns (iterable text, [(target name, type)], unpack?)"""
     if st.orelse:
         reject(st, "for ... else not accepted")
     it = st.iter
+    if iterated is not None:
+        iterated.extend(n.id for n in ast.walk(it) if isinstance(n, ast.Name))
     def names(k):
         tg = st.target
         if k == 1:
@@ -398,6 +560,15 @@ def loop_header(st, sc, binds):
         if ty != "int":
             reject(it, f"range() of {ty} not accepted")
         return f"(py_range {t})", [(names(1)[0], "int")], False
+    if isinstance(it, ast.Call) and isinstance(it.func, ast.Name) and it.func.id == "zip":
+        shadowed(it.func, sc)
+        plain_call(it, 2)
+        t1, ty1 = expr(it.args[0], sc, binds)
+        t2, ty2 = expr(it.args[1], sc, binds)
+        if ty1 not in ELEM or ty2 not in ELEM:
+            reject(it, f"zip() of {ty1}, {ty2} not accepted")
+        a, b = names(2)
+        return f"(py_zip {t1} {t2})", [(a, ELEM[ty1]), (b, ELEM[ty2])], True
     t, ty = expr(it, sc, binds)
     if ty not in ELEM:
         reject(it, f"iteration over {ty} not accepted (the iteration order of sets, terms and sums is not modelled)")
@@ -428,6 +599,10 @@ def loop_block(stmts, sc):
         text = f"bind ({p}) (fun st =>\n    {text})"
     return text
 
+def no_alias(value, ty, node):
+    if isinstance(value, ast.Name) and ty in MUTABLE:
+        reject(node, "a list local may not be copied to another name (lists are values in the model)")
+
 def loop_assign(target, value_text, ty, sc, node):
     loop = sc.loop
     x = target.id
@@ -435,6 +610,8 @@ def loop_assign(target, value_text, ty, sc, node):
         reject(node, f"assignment to {x}, which is a loop target or a local not carried by the loop")
     old = loop["carried"][x]
     base = old[1] if isinstance(old, tuple) else old
+    if ty == "list?" or base == "list?":
+        reject(node, "a list local must be created at function level, before the loops that append to it")
     if old is None:
         loop["carried"][x] = ("opt", ty)        # first bound inside the loop
         old = loop["carried"][x]
@@ -450,6 +627,7 @@ def loop_stmt(s, sc):
             reject(s, "assignment target must be one name")
         binds = []
         t, ty = expr(s.value, sc, binds)
+        no_alias(s.value, ty, s)
         return f"(* {src(s)} *)\n    " + with_binds(binds, loop_assign(s.targets[0], t, ty, sc, s))
     if isinstance(s, ast.AugAssign):
         if not isinstance(s.target, ast.Name) or not isinstance(s.op, ast.Add):
@@ -469,13 +647,48 @@ def loop_stmt(s, sc):
         return f"(* if {src(s.test)} *)\n    " + with_binds(binds, f"if {c} then ({a})\n    else ({b})")
     if isinstance(s, ast.For):
         binds = []
-        it, targets, unpack = loop_header(s, sc, binds)
+        it, targets, unpack = loop_header(s, sc, binds, loop["iterated"])
         name, params = loop_body_def(s, fn, loop, sc.plain, targets)
         for p in params:                      # what the inner body reads from outside, the outer body reads too
             sc.note_used(p)
         call = " ".join([name, "N"] + [f"v_{p}" for p in params])
         body = f"(py_unpack2 ({call}))" if unpack else f"({call})"
         return f"(* for {src(s.target)} in {src(s.iter)} *)\n    " + with_binds(binds, f"py_for {it} st {body}")
+    x = append_target(s)
+    if x is not None:
+        plain_call(s.value, 1)
+        if x in sc.plain or x not in loop["carried"]:
+            reject(s, f"append to {x}, which is not a list local carried by the loop")
+        if x in loop["iterated"]:
+            reject(s, f"append to {x}, which an enclosing loop iterates over")
+        binds = []
+        cur = loop["carried"][x]
+        if cur is None or isinstance(cur, tuple):
+            reject(s, f"append to {x}, which is not bound to a list before the loop")
+        v, tv = expr(s.value.args[0], sc, binds)
+        if tv not in ("num", "circ"):
+            reject(s, f"append of a value of type {tv} not accepted")
+        lt = LISTOF[tv]
+        if cur == "list?":
+            if fn.listtypes.get(x, lt) != lt:
+                reject(s, f"{x} holds values of different types")
+            fn.listtypes[x] = lt
+            loop["carried"][x] = cur = lt
+        if cur != lt:
+            reject(s, f"append of {tv} to {x} of type {cur}")
+        proj = f"({loop['prefix']}_{x} N st)"
+        return f"(* {src(s)} *)\n    " + with_binds(binds, f"Ok ({loop['prefix']}_set_{x} N st (py_append {proj} {v}))")
+    if is_warn(s):
+        shadowed(s.value.func.value, sc)
+        plain_call(s.value, 1)
+        a = s.value.args[0]
+        ok = isinstance(a, ast.Constant) and isinstance(a.value, str)
+        if isinstance(a, ast.Call) and isinstance(a.func, ast.Attribute) and a.func.attr == "format" \
+                and isinstance(a.func.value, ast.Constant) and isinstance(a.func.value.value, str) and not a.keywords:
+            ok = all(isinstance(v, ast.Name) and v.id in sc.plain and not isinstance(sc.plain[v.id], tuple) for v in a.args)
+        if not ok:
+            reject(s, "warning message must be a string literal or <literal>.format(bound names)")
+        return "(* warnings.warn(...): no effect in the model *)\n    Ok st"
     reject(s, "statement not accepted inside a loop")
 
 def top_loop(st, fn, env, lines):
@@ -484,24 +697,24 @@ def top_loop(st, fn, env, lines):
        returns the number of parentheses left open"""
     prefix = f"{fn.name}_S{fn.nloops + 1}"
     carried = {x: env.get(x) for x in assigned(st.body)}          # None: not bound before the loop
-    loop = dict(prefix=prefix, carried=carried, pending=[])
+    loop = dict(prefix=prefix, carried=carried, pending=[], iterated=[])
     binds = []
-    it, targets, unpack = loop_header(st, Scope(fn, env), binds)
+    it, targets, unpack = loop_header(st, Scope(fn, env), binds, loop["iterated"])
     outer_plain = {x: ty for x, ty in env.items() if x not in carried}
     name, params = loop_body_def(st, fn, loop, outer_plain, targets)
     fields = list(carried.items())
     for x, ty in fields:
         if ty is None or (x not in env and not isinstance(ty, tuple)):
             reject(st, f"internal: carried local {x} was not typed")
-    rec = f"Record {prefix}_state (N : pynum) : Type := {prefix}_mk {{\n" + \
+    rec = f"Record {prefix}_state (N : @@NTYPE@@) : Type := {prefix}_mk {{\n" + \
         ";\n".join(f"  {prefix}_{x} : {coqty(ty)}" for x, ty in fields) + "\n}.\n"
     for x, ty in fields:
-        rec += f"Definition {prefix}_set_{x} (N : pynum) (st : {prefix}_state N) (v : {coqty(ty)}) : {prefix}_state N :=\n" + \
+        rec += f"Definition {prefix}_set_{x} (N : @@NTYPE@@) (st : {prefix}_state N) (v : {coqty(ty)}) : {prefix}_state N :=\n" + \
             f"  {prefix}_mk N " + " ".join("v" if y == x else f"({prefix}_{y} N st)" for y, _ in fields) + ".\n"
     fn.defs.append(rec)
     for bname, bparams, btargets, btext in loop["pending"]:
         sig = " ".join(f"(v_{x} : {coqty(ty)})" for x, ty in bparams + btargets)
-        fn.defs.append(f"Definition {bname} (N : pynum) {sig} (st : {prefix}_state N) : result ({prefix}_state N) :=\n    {btext}.\n")
+        fn.defs.append(f"Definition {bname} (N : @@NTYPE@@) {sig} (st : {prefix}_state N) : result ({prefix}_state N) :=\n    {btext}.\n")
     init = f"({prefix}_mk N " + " ".join((f"v_{x}" if x in env else "None") for x, _ in fields) + ")"
     call = " ".join([name, "N"] + [f"v_{p}" for p in params])
     body = f"(py_unpack2 ({call}))" if unpack else f"({call})"
@@ -519,13 +732,23 @@ def open_binds(binds, lines):
 
 # ----------------------------------------------------------------------------- functions
 def exit_stmt(s, sc, binds):
-    """return e / raise ValueError(...)"""
+    """return e / return e1, e2 / raise ValueError(...)"""
+    fn = sc.fn
     if isinstance(s, ast.Return):
         if s.value is None:
             reject(s, "return without a value")
-        t, ty = expr(s.value, sc, binds)
-        if ty != "circ":
-            reject(s, f"returned value of type {ty}, a circuit is expected")
+        if isinstance(s.value, ast.Tuple):
+            if len(s.value.elts) != 2:
+                reject(s, "only a pair can be returned")
+            t1, ty1 = expr(s.value.elts[0], sc, binds)
+            t2, ty2 = expr(s.value.elts[1], sc, binds)
+            t, ty = f"({t1}, {t2})", ("pair", ty1, ty2)
+        else:
+            t, ty = expr(s.value, sc, binds)
+        if fn.rtype is None:
+            fn.rtype = ty
+        if ty != fn.rtype or not (ty == "circ" or ty == ("pair", "circlist", "numlist")):
+            reject(s, f"returned value of type {ty} (expected {fn.rtype}; a circuit or a pair (circuits, numbers))")
         return f"Ok {t}"
     if isinstance(s, ast.Raise):
         e = s.exc
@@ -554,40 +777,30 @@ def aug_as_binop(s):
     ast.copy_location(e, s)
     return e
 
-def function(fdef, sigs):
-    if fdef.decorator_list:
-        reject(fdef, "decorated function (a decorator may change what the call returns)")
-    a = fdef.args
-    if a.vararg or a.kwarg or a.kwonlyargs or a.posonlyargs or a.kw_defaults:
-        reject(fdef, "only plain positional parameters accepted")
-    for d in a.defaults:
-        if not (isinstance(d, ast.Constant) and isinstance(d.value, (int, str)) and not isinstance(d.value, bool)):
-            reject(d, "default value must be an int or str constant")
-    if fdef.returns is not None and ast.unparse(fdef.returns) != "Circuit":
-        reject(fdef.returns, "return annotation must be Circuit")
-    env, params = {}, []
-    for p in a.args:
-        if p.annotation is None or ast.unparse(p.annotation) not in ANNOT:
-            reject(p, "parameter annotation not accepted")
-        if p.arg in env:
-            reject(p, "repeated parameter")
-        env[p.arg] = ANNOT[ast.unparse(p.annotation)]
-        params.append((p.arg, env[p.arg]))
-    fn = Fn(fdef.name, sigs)
-    body = strip_docstring(fdef.body)
-    if not body:
-        reject(fdef, "empty body")
+def top_block(stmts, fn, env, ind):
+    """a block at function level that ends the function: text of type result <returned type>"""
+    if not stmts:
+        reject(None, "empty block")
     lines, closers = [], 0
-    for k, s in enumerate(body):
+    for k, s in enumerate(stmts):
         sc = Scope(fn, env)
-        if k == len(body) - 1:
-            if not isinstance(s, ast.Return):
-                reject(s, "the function must end in `return <circuit>`")
+        last = k == len(stmts) - 1
+        if last and isinstance(s, (ast.Return, ast.Raise)):
             binds = []
             r = exit_stmt(s, sc, binds)
             lines.append(f"(* {src(s)} *)")
             closers += open_binds(binds, lines)
             lines.append(r)
+        elif last and isinstance(s, ast.If) and s.orelse:
+            binds = []
+            c = cond(s.test, sc, binds)
+            lines.append(f"(* if {src(s.test)} ... else ... *)")
+            closers += open_binds(binds, lines)
+            a = top_block(s.body, fn, dict(env), ind + "  ")
+            b = top_block(s.orelse, fn, dict(env), ind + "  ")
+            lines.append(f"if {c} then (\n{a}\n{ind}) else (\n{b}\n{ind})")
+        elif last:
+            reject(s, "the block must end in `return ...` (or an if/else whose branches do)")
         elif isinstance(s, (ast.Assign, ast.AugAssign)):
             if isinstance(s, ast.Assign):
                 if len(s.targets) != 1 or not isinstance(s.targets[0], ast.Name):
@@ -598,15 +811,22 @@ def function(fdef, sigs):
                 x = s.target.id
             binds = []
             t, ty = expr(e, sc, binds)
+            no_alias(e, ty, s)
             if x in env and (env[x][1] if isinstance(env[x], tuple) else env[x]) != ty:
                 reject(s, f"{x} assigned values of different types")
             lines.append(f"(* {src(s)} *)")
             closers += open_binds(binds, lines)
-            lines.append(f"let v_{x} : {coqty(ty)} := {t} in")
+            if ty == "list?":
+                if x in fn.listnames:
+                    reject(s, f"{x} is created by [] more than once")
+                fn.listnames.append(x)
+                lines.append(f"let v_{x} : @@LT_{x}@@ := {t} in")
+            else:
+                lines.append(f"let v_{x} : {coqty(ty)} := {t} in")
             env[x] = ty
         elif isinstance(s, ast.If):
             if s.orelse or len(s.body) != 1:
-                reject(s, "at function level only `if c: return e` and `if c: raise ValueError(...)` are accepted")
+                reject(s, "here only `if c: return e` and `if c: raise ValueError(...)` are accepted")
             binds = []
             c = cond(s.test, sc, binds)
             lines.append(f"(* if {src(s.test)}: {src(s.body[0])} *)")
@@ -618,15 +838,53 @@ def function(fdef, sigs):
             closers += top_loop(s, fn, env, lines)
         else:
             reject(s, "statement not accepted at function level")
-    text = "\n".join("  " + l for l in lines) + ")" * closers
+    return "\n".join(ind + l for l in lines) + ")" * closers
+
+def function(fdef, sigs):
+    if fdef.decorator_list:
+        reject(fdef, "decorated function (a decorator may change what the call returns)")
+    a = fdef.args
+    if a.vararg or a.kwarg or a.kwonlyargs or a.posonlyargs or a.kw_defaults:
+        reject(fdef, "only plain positional parameters accepted")
+    for d in a.defaults:
+        if not (isinstance(d, ast.Constant) and isinstance(d.value, (int, str)) and not isinstance(d.value, bool)):
+            reject(d, "default value must be an int or str constant")
+    env, params = {}, []
+    for p in a.args:
+        if p.annotation is None or ast.unparse(p.annotation) not in ANNOT:
+            reject(p, "parameter annotation not accepted")
+        if p.arg in env:
+            reject(p, "repeated parameter")
+        env[p.arg] = ANNOT[ast.unparse(p.annotation)]
+        params.append((p.arg, env[p.arg]))
+    fn = Fn(fdef.name, sigs)
+    fn.listnames = []
+    if fdef.returns is not None:
+        if ast.unparse(fdef.returns) not in RANNOT:
+            reject(fdef.returns, "return annotation not accepted")
+        fn.rtype = RANNOT[ast.unparse(fdef.returns)]
+    body = strip_docstring(fdef.body)
+    if not body:
+        reject(fdef, "empty body")
+    text = top_block(body, fn, env, "  ")
+    if fn.rtype is None:
+        reject(fdef, "the function does not return a value")
+    gname = name_of(fdef.name)
     sig = " ".join(f"(v_{p} : {coqty(ty)})" for p, ty in params)
-    defaults = ""
+    defaults, dmap = "", {}
     if a.defaults:
         ds = list(zip([p for p, _ in params][-len(a.defaults):], a.defaults))
+        dmap = dict(ds)
         defaults = "(* defaults in the source: " + ", ".join(f"{p} = {src(d)}" for p, d in ds) + " *)\n"
     out = "".join(d + "\n" for d in fn.defs)
-    out += defaults + f"Definition {fdef.name}_gen (N : pynum) {sig} : result (circ (num N)) :=\n{text}.\n"
-    sigs[fdef.name] = [ty for _, ty in params]
+    out += defaults + f"Definition {gname}_gen (N : @@NTYPE@@) {sig} : result ({coqty(fn.rtype)}) :=\n{text}.\n"
+    for x in fn.listnames:
+        if x not in fn.listtypes:
+            reject(fdef, f"the element type of the list local {x} is never determined")
+        out = out.replace(f"@@LT_{x}@@", coqty(fn.listtypes[x]))
+    out = out.replace("@@NTYPE@@", "pynum_pi" if fn.uses_pi else "pynum")
+    out = out.replace(f"{fdef.name}_S", f"{gname}_S").replace(f"{fdef.name}_L", f"{gname}_L") if gname != fdef.name else out
+    sigs[fdef.name] = dict(params=params, defaults=dmap, rtype=fn.rtype, uses_pi=fn.uses_pi)
     return out
 
 HEADER = """(* GENERATED by tr/tr_evolution.py from src/orquestra/quantum/evolution.py - do not edit.
